@@ -39,10 +39,13 @@ def prepare_harness():
 TOOLCHAIN = "/root/go/pkg/mod/golang.org/toolchain@v0.0.1-go1.24.12.linux-amd64/bin"
 
 # per-property settings: race build, shard count, per-shard wall limit (s)
+# tscale multiplies the thorough tier's case counts so that every thorough run is a few minutes
+# of 16-core work (the quick tier is unaffected)
 PROPS = {
-    "C01": {}, "C02": {}, "C03": {}, "C04": {"race_in_thorough": True}, "C05": {}, "C06": {},
-    "C07": {}, "C08": {"race_in_thorough": True}, "C09": {}, "C10": {}, "C11": {}, "C12": {},
-    "C13": {}, "C14": {}, "C15": {}, "C16": {}, "C17": {}, "C18": {"race": True}, "C19": {},
+    "C01": {"tscale": 20}, "C02": {"tscale": 40}, "C03": {}, "C04": {"race_in_thorough": True}, "C05": {},
+    "C06": {"tscale": 20}, "C07": {"tscale": 40}, "C08": {"race_in_thorough": True}, "C09": {"tscale": 30},
+    "C10": {"tscale": 40}, "C11": {"tscale": 3}, "C12": {"tscale": 40}, "C13": {"tscale": 40}, "C14": {"tscale": 60},
+    "C15": {"tscale": 60}, "C16": {}, "C17": {"tscale": 12}, "C18": {"race": True}, "C19": {"tscale": 30},
     "C20": {},
 }
 
